@@ -19,28 +19,52 @@ import (
 	"verif/internal/ref"
 )
 
-type deco struct{ k, v string }
+type deco struct {
+	k, v   string
+	k2, v2 string // optional second keyword inserted together with the first
+	k3, v3 string
+}
 
 func decorations() []deco {
 	var d []deco
 	for _, k := range []string{"title", "description", "$comment"} {
-		d = append(d, deco{k, `"t"`})
+		d = append(d, deco{k: k, v: `"t"`})
 	}
 	for _, v := range []string{`null`, `1`, `"s"`, `[1]`, `{"a":1}`, `true`} {
-		d = append(d, deco{"default", v})
+		d = append(d, deco{k: "default", v: v})
 	}
-	d = append(d, deco{"examples", `[1,"s",null,{"a":[]}]`}, deco{"examples", `[]`})
+	// values no Go float64 can hold, and values shaped like schemas (they are data, not schemas)
+	for _, v := range []string{`1e400`, `-1e400`, `[1e400]`, `12345678901234567890`, `{"$ref":"#/nope"}`, `{"$id":"http://o/","$anchor":"k","$dynamicAnchor":"k","$ref":"nope.json"}`} {
+		d = append(d, deco{k: "default", v: v})
+	}
+	d = append(d, deco{k: "examples", v: `[{"$anchor":"k"},{"$ref":"#/nope"},{"$id":"http://o/"}]`}, deco{k: "examples", v: `[12345678901234567890]`}, deco{k: "examples", v: `[1e400,"s",[-1e400]]`})
+	d = append(d, deco{k: "examples", v: `[1,"s",null,{"a":[]}]`}, deco{k: "examples", v: `[]`})
 	for _, k := range []string{"deprecated", "readOnly", "writeOnly"} {
-		d = append(d, deco{k, `true`}, deco{k, `false`})
+		d = append(d, deco{k: k, v: `true`}, deco{k: k, v: `false`})
 	}
-	for _, v := range []string{`"email"`, `"date-time"`, `"x"`, `"uri"`, `"regex"`} {
-		d = append(d, deco{"format", v})
+	for _, v := range []string{`"email"`, `"date-time"`, `"x"`, `"uri"`, `"regex"`, `"ipv4"`, `"ipv6"`, `"uuid"`, `"date"`, `"time"`, `"hostname"`, `"duration"`, `"json-pointer"`, `"relative-json-pointer"`, `"uri-reference"`, `"iri"`, `"idn-email"`, `"uri-template"`, `""`} {
+		d = append(d, deco{k: "format", v: v})
 	}
-	d = append(d, deco{"contentEncoding", `"base64"`}, deco{"contentMediaType", `"application/json"`}, deco{"contentSchema", `false`}, deco{"contentSchema", `{"type":"string"}`})
-	d = append(d, deco{"$defs", `{"zzz":false}`}, deco{"$defs", `{"zzz":{"type":"string","minLength":100}}`}, deco{"definitions", `{"zzz":false}`}, deco{"definitions", `{"zzz":{"not":{}}}`})
+	d = append(d, deco{k: "contentEncoding", v: `"base64"`}, deco{k: "contentMediaType", v: `"application/json"`}, deco{k: "contentSchema", v: `false`}, deco{k: "contentSchema", v: `{"type":"string"}`})
+	// combinations of the content keywords
+	d = append(d, deco{k: "contentMediaType", v: `"application/json"`, k2: "contentSchema", v2: `{"type":"integer"}`},
+		deco{k: "contentMediaType", v: `"application/json"`, k2: "contentSchema", v2: `false`, k3: "contentEncoding", v3: `"base64"`},
+		deco{k: "contentEncoding", v: `"base16"`, k2: "contentSchema", v2: `{"not":{}}`},
+		deco{k: "format", v: `"regex"`, k2: "readOnly", v2: `true`, k3: "deprecated", v3: `true`})
+	// names from other drafts and dialects
+	for _, kv := range [][2]string{{"id", `"http://x/y"`}, {"id", `1`}, {"$recursiveRef", `"#"`}, {"$recursiveAnchor", `true`}, {"nullable", `true`}, {"divisibleBy", `7`}, {"extends", `{"type":"string"}`}, {"disallow", `["object"]`},
+		{"$data", `"/a"`}, {"discriminator", `{"propertyName":"a"}`}, {"xml", `{}`}, {"example", `1`}, {"minContainss", `9`}, {"patternRequired", `["^z"]`}} {
+		d = append(d, deco{k: kv[0], v: kv[1]})
+	}
+	for _, k := range []string{"x", "Extra"} {
+		for _, v := range []string{`1e400`, `-1e400`, `[1e400]`, `{"a":1e400}`, `12345678901234567890`, `0.1000000000000000000001`, `{"$id":"http://o/","$anchor":"k","$dynamicAnchor":"k","$ref":"#/nope"}`, `[{"$ref":"#/nope"}]`} {
+			d = append(d, deco{k: k, v: v})
+		}
+	}
+	d = append(d, deco{k: "$defs", v: `{"zzz":false}`}, deco{k: "$defs", v: `{"zzz":{"type":"string","minLength":100}}`}, deco{k: "definitions", v: `{"zzz":false}`}, deco{k: "definitions", v: `{"zzz":{"not":{}}}`})
 	for _, k := range []string{"x", "x-y", "Extra", "extra", "PropertyOrder", "propertyOrder", "ID", "DynamicRef", "unknown keyword", "", "é"} {
 		for _, v := range []string{`1`, `"s"`, `null`, `true`, `[1]`, `{"a":1}`, `false`} {
-			d = append(d, deco{k, v})
+			d = append(d, deco{k: k, v: v})
 		}
 	}
 	// case variants of real keywords with values that would assert (or be refused) if matched
@@ -56,7 +80,7 @@ func decorations() []deco {
 		{"uniqueItemſ", `true`}, {"dependentſchemas", `{"a":false}`}, {"enumK", `[]`}, {"ITEMſ", `false`},
 		{"MultipleOf", `7`}, {"ExclusiveMinimum", `1e9`}, {"Deprecated", `"yes"`}, {"$Defs", `1`}, {"$dynamicref", `"#nope"`}, {"Format", `1`}, {"$Vocabulary", `{"x":true}`}, {"Examples", `1`},
 	} {
-		d = append(d, deco{kv[0], kv[1]})
+		d = append(d, deco{k: kv[0], v: kv[1]})
 	}
 	return d
 }
@@ -179,6 +203,15 @@ func decorate(tree any, ptr string, d deco) (string, bool) {
 		return "", false
 	}
 	m[d.k] = json.RawMessage(d.v)
+	for _, kv := range [][2]string{{d.k2, d.v2}, {d.k3, d.v3}} {
+		if kv[0] == "" {
+			continue
+		}
+		if _, dup := m[kv[0]]; dup {
+			return "", false
+		}
+		m[kv[0]] = json.RawMessage(kv[1])
+	}
 encode:
 	enc = json.NewEncoder(&buf)
 	enc.SetEscapeHTML(false)
@@ -289,8 +322,8 @@ func Run(r *ev.Run) {
 	thorough := r.Tier == "thorough"
 	bs := bases(thorough)
 	decos := decorations()
-	pool := drive.MkPool(gen.Vals(`null`, `true`, `0`, `1`, `1.5`, `-1`, `100`, `12345`, `""`, `"a"`, `"ab"`, `[]`, `[1]`, `[1,"a"]`, `[1,1]`, `[[1]]`, `{}`, `{"a":1}`, `{"a":"x"}`, `{"a":1,"b":2}`, `{"b":1}`, `{"zz":1}`, `{"a":{"a":1}}`, `{"p":[1,"x"]}`, `{"v":1}`, `{"v":"s"}`, `[1,"x"]`, `{"p":["x"]}`))
-	r.Rule("base schemas (G-schema/2020 P0+P1(+start of P2), G-schema/07 P0+P1 under the draft-07 $schema; quick every 5th; plus reference/dynamic-scope bases) x every object-valued subschema position x a decoration alphabet: the documented non-asserting keywords with values of every JSON type, unreferenced $defs/definitions entries, 11 unknown names x 7 values, and 51 letter-case variants of real keywords with values that would assert or be refused if matched. Unmarshal must accept the decorated document and the verdict vector over a 28-instance pool must equal the undecorated schema's. Non-trivial = a decorated document (distinct by construction)")
+	pool := drive.MkPool(gen.Vals(`null`, `true`, `0`, `1`, `1.5`, `-1`, `100`, `12345`, `""`, `"a"`, `"ab"`, `[]`, `[1]`, `[1,"a"]`, `[1,1]`, `[[1]]`, `{}`, `{"a":1}`, `{"a":"x"}`, `{"a":1,"b":2}`, `{"b":1}`, `{"zz":1}`, `{"a":{"a":1}}`, `{"p":[1,"x"]}`, `{"v":1}`, `{"v":"s"}`, `[1,"x"]`, `{"p":["x"]}`, `"("`, `" "`, `"%"`, `"1.2.3"`, `"\"x\""`, `"1"`, `"eA=="`))
+	r.Rule("base schemas (G-schema/2020 P0+P1(+start of P2), G-schema/07 P0+P1 under the draft-07 $schema; quick every 5th; plus reference/dynamic-scope bases) x every object-valued subschema position x a decoration alphabet: the documented non-asserting keywords with values of every JSON type, unreferenced $defs/definitions entries, 11 unknown names x 7 values, numbers outside float64 (1e400, 20-digit integers) and schema-shaped objects as values of unknown keywords / default / examples, 24 format names, combinations of the content keywords, 14 keyword names of other drafts and dialects, and 51 letter-case variants of real keywords with values that would assert or be refused if matched. Unmarshal must accept the decorated document and the verdict vector over a 35-instance pool must equal the undecorated schema's. Non-trivial = a decorated document (distinct by construction)")
 	r.Assume("the undecorated verdict is the oracle (differential); correctness of that verdict is C01/C02's business", "ValidateDefaults is off; decorations are well-formed where they are schemas")
 	r.Set("bases", len(bs))
 	r.Set("decorations", len(decos))
@@ -320,7 +353,7 @@ func Run(r *ev.Run) {
 			if b.draft == ref.D07 {
 				kw = "definitions"
 			}
-			mine = append(mine[:len(mine):len(mine)], deco{kw, fmt.Sprintf(`{%q:false}`, name)}, deco{kw, fmt.Sprintf(`{%q:{"type":"string","minLength":100}}`, name)})
+			mine = append(mine[:len(mine):len(mine)], deco{k: kw, v: fmt.Sprintf(`{%q:false}`, name)}, deco{k: kw, v: fmt.Sprintf(`{%q:{"type":"string","minLength":100}}`, name)})
 		}
 		for _, ptr := range pointersOf(b.text, b.draft) {
 			for _, d := range mine {
@@ -329,6 +362,9 @@ func Run(r *ev.Run) {
 					continue
 				}
 				key := fmt.Sprintf("%s + %q:%s at %q", b.text, d.k, d.v, ptr)
+				if d.k2 != "" {
+					key = fmt.Sprintf("%s + %q:%s,%q:%s,%q:%s at %q", b.text, d.k, d.v, d.k2, d.v2, d.k3, d.v3, ptr)
+				}
 				if r.OnlyKey != "" && r.OnlyKey != key {
 					continue
 				}
